@@ -240,3 +240,23 @@ M('c20-cycle-visited', 'C20', VAL, "        if gate_states[gate.label] == Traver
 M('c20-bfs-hooks', 'C20', CIRC, "            TraverseMode.BFS,\n            start_gates,\n            inverse=inverse,", "            TraverseMode.BFS,\n            start_gates,\n            inverse=not inverse,", 'C20.ENTRY')
 M('c20-twin-rename', 'C20', CIRC, "                for child in _next_getter(current_elem):\n                    on_discover_hook(self.get_gate(child), gate_states)\n                    if gate_states[child] == TraverseState.UNVISITED:\n                        queue.append(child)",
   "                for nxt in _next_getter(current_elem):\n                    on_discover_hook(self.get_gate(nxt), gate_states)\n                    if gate_states[nxt] == TraverseState.UNVISITED:\n                        queue.append(nxt)", None)
+
+# ---------------------------------------------------------------- C11
+BEN = 'cirbo/core/parser/bench.py'
+M('c11-classify-back', 'C11', BEN, "line.upper().startswith('INPUT(')", "line.upper().startswith('INPUT')", 'C11.CLASSIFY')
+M('c11-output-back', 'C11', BEN, "line.upper().startswith('OUTPUT(')", "line.upper().startswith('OUTPUT')", 'C11.CLASSIFY')
+M('c11-input-slice', 'C11', BEN, "_gate = line[6:].strip(') \\n')", "_gate = line[7:].strip(') \\n')", 'C11.CLASSIFY')
+M('c11-case-sensitive', 'C11', BEN, "_operator_str = line[:_lbkt_idx].strip(' ').upper()", "_operator_str = line[:_lbkt_idx].strip(' ')", 'C11.CLASSIFY')
+M('c11-names-leq', 'C11', BEN, "gate.LEQ.name: self._process_leq,", "gate.LEQ.name: self._process_lt,", 'C11.CLASSIFY')
+M('c11-handler-swap', 'C11', BEN, "return self._add_gate(out, gate.GT, arg1, arg2)", "return self._add_gate(out, gate.GT, arg2, arg1)", 'C11.CLASSIFY')
+M('c11-handler-type', 'C11', BEN, "return self._add_gate(out, gate.NOR, arg1, arg2, *args)", "return self._add_gate(out, gate.NOR, arg1, arg2)", 'C11.CLASSIFY')
+M('c11-handler-binary-xor', 'C11', BEN, "    def _process_xor(self, out: str, arg1: str, arg2: str, *args: str):\n        return self._add_gate(out, gate.XOR, arg1, arg2, *args)", "    def _process_xor(self, out: str, arg1: str, arg2: str):\n        return self._add_gate(out, gate.XOR, arg1, arg2)", 'C11')
+M('c11-buff-print', 'C11', GATE, '            return f"{self._label} = BUFF({\', \'.join(self._operands)})"', '            return f"{self._label} = BUF({\', \'.join(self._operands)})"', 'C11.NAMES')
+M('c11-print-reversed-operands', 'C11', GATE, "return f\"{self._label} = {self.gate_type.name}({', '.join(self._operands)})\"", "return f\"{self._label} = {self.gate_type.name}({', '.join(reversed(self._operands))})\"", 'C11.CLASSIFY')
+M('c11-vdd-prefix', 'C11', BEN, "if _body[:3].upper() == VDD_NAME:", "if _body[:2].upper() == VDD_NAME[:2]:", None)
+M('c11-vdd-on-name', 'C11', BEN, "if _body[:3].upper() == VDD_NAME:", "if _out[:3].upper() == VDD_NAME:", 'C11.CLASSIFY')
+M('c11-print-outputs-sorted', 'C11', CIRC, "f'OUTPUT({output_label})' for output_label in self._outputs", "f'OUTPUT({output_label})' for output_label in sorted(self._outputs)", 'C11.PRINT')
+M('c11-print-skip-consts', 'C11', CIRC, "            for _gate in self._gates.values()\n            if _gate.gate_type != gate.INPUT\n        )", "            for _gate in self._gates.values()\n            if _gate.operands\n        )", 'C11.PRINT')
+M('c11-eof-dropped', 'C11', 'cirbo/core/parser/abstract.py', "        yield from self._eof()\n", "", 'C11.PRINT')
+M('c11-comment-strip', 'C11', BEN, "if line == '' or line == '\\n' or line[0] == '#':", "if line == '' or line == '\\n' or '#' in line:", None)
+M('c11-twin-find-bracket', 'C11', BEN, "_gate = line[6:].strip(') \\n')", "_gate = line[line.find('(') + 1 :].strip(') \\n')", None)
